@@ -62,10 +62,13 @@ def long_walk(rng, w, n_frames, layout):
     arrive = rng.randint(n_frames // 2, (2 * n_frames) // 3)     # the early animals have walked hundreds of px by then
     absent = {}          # frame -> animal missing (never at an arrival, never two at once, shorter than the window)
     t = arrive + 3
+    first = True
     while t < n_frames - w:
         a = rng.choice([1, 2, 3])
-        for k in range(rng.randint(1, max(1, w - 1))):
+        # the first absence is the longest the window covers (w - 1 frames): the configured window, not a default, decides
+        for k in range(max(1, w - 1) if first else rng.randint(1, max(1, w - 1))):
             absent[t + k] = a
+        first = False
         t += w + rng.randint(3, 9)
     hist = [sorted(a for a in (1, 2, 3) if (a < 3 or f >= arrive) and absent.get(f) != a) for f in range(n_frames)]
     return hist, walk_frames(hist, layout, rng)
@@ -132,7 +135,9 @@ def run(tier, seed):
                         # quick: one layout per (configuration, feature), rotated so that every (feature, layout) pair occurs
                         if tier == "quick" and (n_long + k) % 3 != li:
                             continue
-                        w = rng.choice([3, 5])
+                        # also windows larger than the constructors' default (seed C10_r12); not for the fast walkers, who would cover
+                        # more than the lane separation during an absence of 7+ frames (outside the property's scenario class)
+                        w = rng.choice([3, 5] if layout == "fast" else [3, 5, 8, 12])
                         hist, frames = long_walk(rng, w, rng.randint(100, 140) if layout != "fast" else rng.randint(40, 60), layout)
                         tc = dict(store=store, match=match, red=red, feat=feat, score=score)
                         cfg = dict(store=store, match=match, red=red, w=w)
